@@ -146,6 +146,18 @@ def run_batch(ctx, n, length, with_model=True):
         [["new", 0, bad], ["new", 0, bad], ["call", 0, {"u": "u1"}]],
         [["new", 0, good], ["new", 1, good.replace("1,", "9,")], ["recompile", 1, bad], ["call", 0, {"u": "u7"}], ["call", 1, {"u": "u7"}]],
     ]
+    # near-twin texts: recompile from one to the other, then call on many units (a recompile that is
+    # wrongly taken for "unchanged" shows only on the units whose group differs)
+    a = 'def w { splitters: u return "group A" weighted 1, "x" weighted 1 }'
+    twins = [(a, a.replace("group A", "group  A")), (a.replace("group A", "group  A"), a),
+             (a, a.replace("group A", "group\tA")), (a, a.replace('"x" weighted 1', '"x" weighted 1.0')),
+             (a, a.replace("weighted 1,", "weighted 1 ,").replace("group A", "Group A")),
+             (a, a.replace("def w {", "def w { // c\n")), (a, a.replace("splitters: u", "splitters: u // note\n") + " "),
+             (a, a.replace('return "group A"', 'return "group A" // old: "group B"\n')),
+             (a, 'def w { splitters: u // return "a" weighted 1 }'), (a, a.upper().replace("DEF W", "def w").replace("SPLITTERS: U RETURN", "splitters: u return").replace("WEIGHTED", "weighted"))]
+    calls = [["call", 0, {"u": u}] for u in ["u1", "u2", "u3", 3, 4, "user_7", "user_8", "zz"]]
+    for t1, t2 in twins:
+        hists.insert(0, [["new", 0, t1]] + calls[:3] + [["recompile", 0, t2]] + calls + [["recompile", 0, t2]] + calls[:2])
     models = [None] * len(hists)
     if with_model and ctx.driver_ok:
         reqs = [{"op": "life", "ops": [[o[0], o[1], o[2] if o[0] != "call" else common.enc_env(o[2])] for o in h]} for h in hists]
